@@ -219,10 +219,16 @@ func dhcpScenario(c nicCfg, sseed uint64) (cases []dhcpCase, bad []string) {
 	h, file := dhcpHandler(s, c)
 	defer func() { h.Close(); os.Remove(file) }()
 	seed := strconv.Itoa(rng.Intn(256))
-	harvest := func() {
+	// expect patches the arguments read from the frame with what the scenario KNOWS was requested at this
+	// step (addresses, ids, xid), so that the spec column judges the frame against independent values
+	var expect func(label string, kind string, nth int, args []string) []string
+	harvest := func(label string) {
 		cn.WaitQuiet(30*time.Millisecond, 2*time.Second)
+		nth := map[string]int{}
 		for _, f := range cn.Take() {
 			if k, a := classifyDHCP(f, seed); k != "" {
+				a = expect(label, k, nth[k], a)
+				nth[k]++
 				cases = append(cases, dhcpCase{k, a, hx(f)})
 			} else {
 				bad = append(bad, hx(f))
@@ -238,15 +244,36 @@ func dhcpScenario(c nicCfg, sseed uint64) (cases []dhcpCase, bad []string) {
 			return
 		}
 		h.ProcessPacket(fr)
-		harvest()
+		harvest(label)
 	}
 	mac := net.HardwareAddr{0x02, rng.Byte(), rng.Byte(), rng.Byte(), rng.Byte(), rng.Byte()}
 	xid := rng.Bytes(4)
 	zero := netip.AddrFrom4([4]byte{})
 	prl := []byte{55, 4, 1, 3, 6, 15}
 	bcast := rng.Bool()
-	step(dhcpReq(1, mac, xid, zero, bcast, [][]byte{prl}), "discover")
+	mac2 := net.HardwareAddr{0x02, rng.Byte(), rng.Byte(), rng.Byte(), rng.Byte(), rng.Byte()}
+	xid2, xid3 := rng.Bytes(4), rng.Bytes(4)
+	hip := c.hostIP.As4()
+	other := []byte{hip[0], hip[1], hip[2], 250}
 	var offered netip.Addr
+	expect = func(label, kind string, nth int, a []string) []string {
+		switch {
+		case kind == "dhcpreply": // every request of the scenario comes from 0.0.0.0: replies are broadcast
+			a[0], a[1] = "ffffffffffff", "ffffffff"
+		case kind == "discover" && label == "discover": // attackDHCPServer: fake MAC ff:ee:dd:cc:bb:i, xid ff ee dd i
+			a[0], a[1], a[2], a[3] = fmt.Sprintf("ffeeddccbb%02x", nth), "00000000", fmt.Sprintf("ffeedd%02x", nth), "-"
+		case kind == "decline" && label == "request-foreign": // client id = chaddr, server = home router, declined IP = requested
+			a[0], a[1], a[2], a[3], a[4] = hx(mac2), hx(mac2), ipTok(c.routerIP), hx([]byte{hip[0], hip[1], hip[2], 77}), hx(xid2)
+		case kind == "decline" && label == "foreign-offer": // server = the foreign server id, declined IP = its yiaddr
+			a[0], a[1], a[2], a[3], a[4] = hx(mac2), hx(mac2), hx(other), hx([]byte{hip[0], hip[1], hip[2], 60}), hx(xid3)
+		case kind == "release" && label == "starthunt": // released IP = the lease; the xid is the library's random one
+			a[0], a[1], a[2], a[3] = hx(mac), hx(mac), ipTok(c.routerIP), ipTok(offered)
+		default:
+			bad = append(bad, "unexpected "+kind+" at step "+label)
+		}
+		return a
+	}
+	step(dhcpReq(1, mac, xid, zero, bcast, [][]byte{prl}), "discover")
 	for _, l := range h.VerifLeases() {
 		if bytes.Equal(l.Addr.MAC, mac) {
 			offered = l.IPOffer
@@ -255,17 +282,14 @@ func dhcpScenario(c nicCfg, sseed uint64) (cases []dhcpCase, bad []string) {
 			}
 		}
 	}
-	hip := c.hostIP.As4()
 	if offered.Is4() {
 		o4 := offered.As4()
 		step(dhcpReq(3, mac, xid, zero, bcast, [][]byte{append([]byte{50, 4}, o4[:]...), append([]byte{54, 4}, hip[:]...), prl}), "request")
 	}
-	mac2 := net.HardwareAddr{0x02, rng.Byte(), rng.Byte(), rng.Byte(), rng.Byte(), rng.Byte()}
-	step(dhcpReq(3, mac2, rng.Bytes(4), zero, true, [][]byte{{50, 4, hip[0], hip[1], hip[2], 77}}), "request-foreign")
-	other := []byte{hip[0], hip[1], hip[2], 250}
+	step(dhcpReq(3, mac2, xid2, zero, true, [][]byte{{50, 4, hip[0], hip[1], hip[2], 77}}), "request-foreign")
 	offer := make([]byte, 240, 320)
 	offer[0], offer[1], offer[2] = 2, 1, 6
-	copy(offer[4:8], rng.Bytes(4))
+	copy(offer[4:8], xid3)
 	copy(offer[16:20], []byte{hip[0], hip[1], hip[2], 60})
 	copy(offer[28:34], mac2)
 	copy(offer[236:240], []byte{99, 130, 83, 99})
@@ -281,7 +305,7 @@ func dhcpScenario(c nicCfg, sseed uint64) (cases []dhcpCase, bad []string) {
 		cn.Take()
 		poisonPool(atoi(seed))
 		h.StartHunt(packet.Addr{MAC: mac, IP: offered})
-		harvest()
+		harvest("starthunt")
 	}
 	return
 }
